@@ -200,6 +200,29 @@ func genC08(g *Rng, tier string, emit func(Op)) {
 				}
 			}
 		}
+		// an additional null member in every object of the message (whatever its name): at most a
+		// refusal, never a crash
+		for _, mp := range paths {
+			node, ok := getAt(root, mp)
+			pm, isMap := node.(map[string]any)
+			if !ok || !isMap || !isMapNode(node) {
+				continue
+			}
+			names := []string{"gamma", "zz"}
+			if intKeyed(pm) && len(pm) > 0 {
+				names = []string{"1", "3", "5"}
+			}
+			for _, name := range names {
+				if _, taken := pm[name]; taken {
+					continue
+				}
+				t2 := cloneTree(root)
+				n2, _ := getAt(t2, mp)
+				n2.(map[string]any)[name] = nil
+				emit(listOp(s.keys, t2.(T)["l"].([]any), s.ctx, s.nonce, false, nil, "extra-null-member", never).with("fkey", "C08/extra-null-member"))
+				break
+			}
+		}
 		// every index-keyed map of every member, one entry moved to each boundary index of the
 		// member's key: below 0, the last base, one past the last base, two past, far beyond
 		for pi, ptree := range s.trees {
